@@ -40,6 +40,9 @@ def body (D : Decoder) (lr : LReq) : BodyV :=
 
 def funcs (D : Decoder) (lr : LReq) : Funcs := { header := header lr, cookie := cookie lr, body := body D lr }
 
+/-- the payload: the bytes of the body as the client sent them, whatever their number (no body = no bytes) -/
+def payload (lr : LReq) : Bytes := lr.body.getD []
+
 /-- all headers other than `Host`: canonical name ↦ joined values -/
 def headersMap (lr : LReq) : List (Bytes × Bytes) :=
   (group canonKey lr.headers).map fun kv => (kv.1, join comma kv.2)
@@ -125,19 +128,20 @@ def serve (cfg : Cfg) (lr : LReq) : Run := serveOn cfg (funcs cfg.D lr) (obj lr)
     decision / proxy service and the status of Envoy's denied response), the view that was shown, and — if the
     request is allowed — every collected header with all its values (HTTP list semantics: joined by a comma), the
     cookies, and what the upstream application is shown: the client's headers, those of a name the pipeline set
-    replaced by the pipeline's value. A proxy can only forward if the rule names an upstream, which the default rule
-    does not. -/
+    replaced by the pipeline's value, and the payload as the client sent it. A proxy can only forward if the rule
+    names an upstream, which the default rule does not. Nothing of this depends on the log level the services run
+    with or on the length of the body. -/
 def answerWith (hand : List Bytes → Bytes) (R : Respond) (lr : LReq) (ep : EP) (r : Run) : Outcome :=
   let seen := r.view.map fun o => ({ obj := o, stable := true } : Seen)
   let refused (d : Dec) : Outcome :=
-    { dec := d, status := R.code d, seen, upHeaders := [], upCookies := [], upSees := [] }
+    { dec := d, status := R.code d, seen, upHeaders := [], upCookies := [], upSees := [], upBody := [] }
   match r.dec with
   | .ok =>
     if ep = .proxy && r.isDefault then refused .internal
     else
       let handed := r.ups.headers.map fun kv => (kv.1, hand kv.2)
       { dec := .ok, status := okStatus R ep, seen, upHeaders := handed, upCookies := r.ups.cookies,
-        upSees := overrideHeaders (headersMap lr) handed }
+        upSees := overrideHeaders (headersMap lr) handed, upBody := payload lr }
   | d => refused d
 
 def answer (R : Respond) (lr : LReq) (ep : EP) (r : Run) : Outcome := answerWith (join comma) R lr ep r
